@@ -332,6 +332,9 @@ func main() {
 			if i%3 == 1 {
 				scs[i].NoResponseTimeout = true
 			}
+			if i%4 == 2 { // and a quarter with a stream buffer other than the default 8 KiB
+				scs[i].StreamBufferSize = []int{1024, 16384, 65536}[(i/4)%3]
+			}
 		}
 	}
 	batch := 36
